@@ -20,7 +20,15 @@ Clause labels -> sentence of the property
   only_required_remains  "in which case only gin.REQUIRED remains"
   as_fresh_calls         "indistinguishable through ... calls from a fresh process"
   registrations_remain   "while registered configurables remain" (bind + call after clear)
+
+User constants in the `gin.` namespace (`gin.MY_SCALE`, `gin.contrib.RATE`, the members of an
+enum published with constants_from_enum(module='gin.contrib.colors')) take part in the
+histories like any other constant: with clear_constants=False they survive (the fresh
+interpreter re-creates them), with clear_constants=True "only gin.REQUIRED remains": querying
+them fails as in a fresh process and the closing `redefine` step of the observation script
+defines them again, which succeeds exactly when a fresh process would accept it.
 """
+import enum
 import json
 import logging
 import os
@@ -33,9 +41,12 @@ from gin import config as gc
 
 BOUNDS = ('histories of 1..8 operations drawn from 52 concrete operations (parse of 20 texts, 7 of '
           'them failing, bind incl. invalid keys, calls in 3 scopes, finalize, unlock_config with a '
-          'raising body, constants incl. interactive shadowing, intermediate clear/observe), then '
-          'clear_config with both values of clear_constants; 52 single-operation + 192 scenario x '
-          'ending histories, then 450 (quick) / 14000 (thorough) sampled histories')
+          'raising body, constants incl. interactive shadowing, intermediate clear/observe), plus '
+          '10 operations defining constants in the `gin.` namespace (2 names, re-definition, '
+          'interactive, constants_from_enum under 3 module prefixes) and 1 text using them, then '
+          'clear_config with both values of clear_constants; 20 gin-namespace + 63 '
+          'single-operation + 240 scenario x ending histories, then 450 (quick) / 14000 '
+          '(thorough) sampled histories')
 EXHAUSTIVE = {'quick': False, 'thorough': False}
 
 _DYN = ('from __gin__ import dynamic_registration\n'
@@ -61,6 +72,11 @@ class K:
   def __init__(self, a=0):
     self.a = a
     K.made.append(self)
+
+
+class Color(enum.Enum):
+  RED = 1
+  BLUE = 2
 
 
 def _register():
@@ -92,7 +108,11 @@ PARSE_TEXTS = [
     "import math\nimport c20_no_such_module\nf.x = 14",
     "f.y = 'inc'\ninclude '/nonexistent/c20.gin'",
     "from __gin__ import no_such_feature",
+    "f.x = %gin.MY_SCALE\ns/f.y = %gin.contrib.colors.Color.RED\ng.y = [%Color.BLUE, %gin.REQUIRED]",
 ]
+# user constants living in gin's own namespace, next to gin.REQUIRED
+GIN_CONSTANTS = [['gin.MY_SCALE', 5], ['gin.contrib.RATE', 0.5], ['gin.MY_SCALE', 6]]
+ENUM_MODULES = ['gin.contrib.colors', 'colors', 'c20.colors']
 CONSTANTS = [['C20_A', 10], ['mm.X', 1], ['X', 2], ['nn.mm.X', 'deep'], ['C20_A', 11],
              ['bad name', 0]]
 BIND = [['f.x', 21], ['s/f.x', 22], ['g.y', 'gy'], ['s/t/g.y', 24], ['K.a', 25],
@@ -111,7 +131,16 @@ def _all_ops():
   ops += [{'op': 'finalize'}, {'op': 'unlock_bind', 'key': 'f.y', 'value': 'u', 'raises': False},
           {'op': 'unlock_bind', 'key': 'g.y', 'value': 'u2', 'raises': True},
           {'op': 'clear', 'cc': False}, {'op': 'clear', 'cc': True}, {'op': 'observe'}]
-  return ops
+  return ops + GIN_OPS
+
+
+def _enum(module, interactive=False):
+  return {'op': 'enum', 'module': module, 'interactive': interactive}
+
+
+GIN_OPS = [{'op': 'constant', 'name': n, 'value': v, 'interactive': i}
+           for n, v in GIN_CONSTANTS for i in (False, True)] + [
+               _enum(m) for m in ENUM_MODULES] + [_enum('gin.contrib.colors', True)]
 
 
 OPS = _all_ops()
@@ -146,6 +175,12 @@ SCENARIOS = {
     'unknown_refs': [{'op': 'parse', 'text': "f.x = @c20_unknown()\nnope.y = 1", 'skip': True},
                      _c('f')],
     'required': [_p(12), _c('req')],
+    'gin_namespace_constants': [_k('gin.MY_SCALE', 5, False), _enum('gin.contrib.colors'), _p(19),
+                                _c('f', 's')],
+    'gin_and_user_constants': [_k('C20_A', 10, False), _k('gin.contrib.RATE', 0.5, True),
+                               _enum('c20.colors'), _k('gin.MY_SCALE', 6, False)],
+    'gin_namespace_shadowing': [_enum('colors'), _enum('gin.contrib.colors', True),
+                                _k('gin.MY_SCALE', 5, True), _k('gin.MY_SCALE', 6, True)],
 }
 
 
@@ -157,6 +192,9 @@ def _modified(s):
 
 
 def cases(tier, rng):
+  for op in GIN_OPS:   # a user constant in the `gin.` namespace, then either kind of clear
+    for cc in (True, False):
+      yield {'history': [op], 'cc': cc}
   for op in OPS:   # every single operation, then the clear
     yield {'history': [op], 'cc': False}
   for name in sorted(SCENARIOS):
@@ -186,11 +224,16 @@ class _BodyError(Exception):
   pass
 
 
+_THIS_FILE = os.path.abspath(__file__)
+
+
 def _reraise_if_mine(e):
   """A fault whose innermost frame is in this file is a bug of the stand-in, not an outcome."""
-  tb = traceback.extract_tb(e.__traceback__)
-  if tb and os.path.abspath(tb[-1].filename) == os.path.abspath(__file__) and not isinstance(
-      e, _BodyError):
+  tb = e.__traceback__   # (walked by hand: traceback.extract_tb reads the source lines)
+  while tb is not None and tb.tb_next is not None:
+    tb = tb.tb_next
+  if tb is not None and not isinstance(e, _BodyError) and os.path.abspath(
+      tb.tb_frame.f_code.co_filename) == _THIS_FILE:
     raise e
 
 
@@ -200,11 +243,18 @@ def _try(fn):
   except Exception as e:   # only the kind of outcome is compared, never the message
     _reraise_if_mine(e)
     return ['exc', type(e).__name__]
+  if isinstance(v, list):
+    v = [_enum_name(x) for x in v]
+  v = _enum_name(v)
   try:
     json.dumps(v)
   except (TypeError, ValueError):
     v = 'non-json:' + type(v).__name__
   return ['ok', v]
+
+
+def _enum_name(v):
+  return 'enum:%s.%s' % (type(v).__name__, v.name) if isinstance(v, enum.Enum) else v
 
 
 def _call(fn, scope):
@@ -238,6 +288,16 @@ def _run_op(op, consts):
       else:
         gin.constant(op['name'], op['value'])
       consts[op['name']] = op['value']     # reached only when constant() succeeded
+    elif kind == 'enum':
+      # All members share the module prefix, so either the first one is refused (nothing is
+      # defined) or every member is accepted: reaching the next line means all were defined.
+      if op['interactive']:
+        with gc.interactive_mode():
+          gin.constants_from_enum(Color, module=op['module'])
+      else:
+        gin.constants_from_enum(Color, module=op['module'])
+      for member in Color:
+        consts['%s.Color.%s' % (op['module'], member.name)] = {'c20_enum_member': member.name}
     elif kind == 'clear':
       gin.clear_config(clear_constants=op['cc'])
       if op['cc']:
@@ -253,7 +313,9 @@ QUERY_KEYS = ['f.x', 'f.y', 's/f.x', 's/f.y', 's/t/f.x', 'g.y', 'g.z', 's/g.z', 
               'req.a', 'm/gin.macro.value', 's/m/gin.macro.value',
               'sing/gin.singleton.constructor', 'a/b/gin.singleton.constructor',
               'function.arg', 'Class.a']
-CONST_NAMES = ['C20_A', 'mm.X', 'X', 'nn.mm.X', 'gin.REQUIRED', 'REQUIRED']
+CONST_NAMES = ['C20_A', 'mm.X', 'X', 'nn.mm.X', 'gin.REQUIRED', 'REQUIRED', 'gin.MY_SCALE', 'MY_SCALE',
+               'gin.contrib.RATE', 'RATE', 'gin.contrib.colors.Color.RED', 'colors.Color.BLUE',
+               'c20.colors.Color.RED', 'Color.RED']
 
 
 def _macro_value(name):
@@ -293,6 +355,13 @@ def _observe():
                   _try(gin.config_str), _try(lambda: gin.query_parameter('function.arg'))]
   o['finalize'] = [_try(gin.finalize), gin.config_is_locked(), _try(lambda: gin.bind_parameter('f.x', 0))]
   o['operative_final'] = _try(gin.operative_config_str)
+  # names in the `gin.` namespace can be (re)defined exactly when a fresh process accepts it
+  o['redefine'] = [_try(lambda: gin.constant('gin.MY_SCALE', 7)), _try(lambda: _macro_value('gin.MY_SCALE')),
+                   _try(lambda: gin.constant('gin.contrib.RATE', 0.25)), _try(lambda: _macro_value('RATE')),
+                   _try(lambda: gin.constants_from_enum(Color, module='gin.contrib.colors') and None),
+                   _try(lambda: _macro_value('gin.contrib.colors.Color.BLUE')),
+                   _try(lambda: gin.parse_config(PARSE_TEXTS[19])), _try(lambda: _call('f', 's')),
+                   _try(lambda: gin.constant('gin.REQUIRED', 0))]
   return o
 
 
@@ -329,6 +398,8 @@ def _fresh_main():
   _register()
   with gc.interactive_mode():   # shadowing constants can only be re-created interactively
     for name, value in consts:
+      if isinstance(value, dict) and 'c20_enum_member' in value:
+        value = Color[value['c20_enum_member']]
       gin.constant(name, value)
   json.dump(_observe(), sys.stdout)
 
